@@ -67,7 +67,7 @@ func newCtx(parent context.Context) *vctx {
 
 // WithCancel replaces context.WithCancel.
 func WithCancel(parent context.Context) (context.Context, context.CancelFunc) {
-	if ex == nil {
+	if !live() {
 		return context.WithCancel(parent)
 	}
 	c := newCtx(parent)
@@ -76,7 +76,7 @@ func WithCancel(parent context.Context) (context.Context, context.CancelFunc) {
 
 // WithDeadline replaces context.WithDeadline (virtual time).
 func WithDeadline(parent context.Context, d time.Time) (context.Context, context.CancelFunc) {
-	if ex == nil {
+	if !live() {
 		return context.WithDeadline(parent, d)
 	}
 	c := newCtx(parent)
@@ -89,7 +89,7 @@ func WithDeadline(parent context.Context, d time.Time) (context.Context, context
 
 // WithTimeout replaces context.WithTimeout (virtual time).
 func WithTimeout(parent context.Context, d time.Duration) (context.Context, context.CancelFunc) {
-	if ex == nil {
+	if !live() {
 		return context.WithTimeout(parent, d)
 	}
 	return WithDeadline(parent, Now().Add(d))
@@ -115,7 +115,7 @@ func (e *Exec) addTimer(at int64, fire func()) *vtimer {
 // Now replaces time.Now: the virtual clock. Every call advances it by one nanosecond so that
 // consecutive readings differ, as they practically always do on a real clock.
 func Now() time.Time {
-	if ex == nil {
+	if !live() {
 		return time.Now()
 	}
 	ex.vnow++
@@ -127,7 +127,7 @@ func Until(t time.Time) time.Duration { return t.Sub(Now()) }
 
 // After replaces time.After.
 func After(d time.Duration) <-chan time.Time {
-	if ex == nil {
+	if !live() {
 		return time.After(d)
 	}
 	ch := make(chan time.Time, 1)
@@ -140,7 +140,7 @@ func After(d time.Duration) <-chan time.Time {
 
 // Sleep replaces time.Sleep: blocks until the harness advances the virtual clock far enough.
 func Sleep(d time.Duration) {
-	if ex == nil {
+	if !live() {
 		time.Sleep(d)
 		return
 	}
@@ -159,7 +159,7 @@ type Timer struct {
 }
 
 func NewTimer(d time.Duration) *Timer {
-	if ex == nil {
+	if !live() {
 		r := time.NewTimer(d)
 		return &Timer{C: r.C, r: r}
 	}
@@ -182,7 +182,7 @@ func (t *Timer) Stop() bool {
 
 // AfterFunc replaces time.AfterFunc.
 func AfterFunc(d time.Duration, f func()) *Timer {
-	if ex == nil {
+	if !live() {
 		r := time.AfterFunc(d, f)
 		return &Timer{r: r}
 	}
